@@ -365,6 +365,47 @@ def shard(ctx):
                     break
             if npairs:
                 ctx.res.distinct.add(("console-cfn", min(npairs, 6)))
+    # ---- a captured map key (`Resources[ name | .. ]`, then `%name == ..`): the value compared is the key; the path reported with it has to lead to it
+    if ctx.mine(3):
+        kdoc = {"Resources": {"B1": {"Type": "T", "P": {"x": 1}}, "B2": {"Type": "U"}, "B3": {"Type": "T"}}}
+        ktext = ("rule k0 {\n    Resources[ n | Type == \"T\" ] exists\n    %n == \"zzz\"\n}\n"
+                 "rule k1 {\n    Resources.B1[ m | x exists ] exists\n    %m in [\"a\", \"b\"]\n}\n")
+        r = ctx.w.run({"k": "cli", "argv": ["validate", "-r", "{S}/r.guard", "-d", "{S}/d.json", "--structured", "-S", "none", "-o", "json"],
+                       "files": {"r.guard": ktext, "d.json": json.dumps(kdoc)}})
+        ctx.res.cases += 1
+        if r.get("r") != "ok":
+            ctx.inconclusive("crash" if core.crash_signature(r) else "key-capture-gadget-error")
+        else:
+            froms = []
+
+            def walk_k(e):
+                if isinstance(e, dict):
+                    for k_, v_ in e.items():
+                        if k_ in ("Resolved", "InResolved") and isinstance(v_, dict) and isinstance(v_.get("from"), dict):
+                            froms.append(v_["from"])
+                        walk_k(v_)
+                elif isinstance(e, list):
+                    for x_ in e:
+                        walk_k(x_)
+            walk_k(json.loads(r["out"])[0].get("not_compliant", []))
+            ctx.res.counts["captured_key_reports"] += len(froms)
+            if not froms:
+                ctx.inconclusive("key-capture-gadget-no-report")
+            for fr in froms:
+                node = kdoc
+                try:
+                    for seg in [x for x in fr.get("path", "").split("/") if x != ""]:
+                        node = node[int(seg)] if isinstance(node, list) else node[seg]
+                except (KeyError, IndexError, ValueError, TypeError):
+                    node = KeyError
+                if node == fr.get("value"):
+                    ctx.res.distinct.add(("captured-key", "resolves"))
+                elif isinstance(node, dict) and fr.get("value") in node:
+                    ctx.violation("from:captured-key:path-of-the-enclosing-map", "a captured key is reported as value %s with path %r, which is the map that holds the key, not the value" % (
+                        json.dumps(fr.get("value")), fr.get("path")), {"kind": "keycapture", "rules": ktext, "data": json.dumps(kdoc)})
+                else:
+                    ctx.violation("from:captured-key:value-mismatch", "a captured key is reported as value %s with path %r, which resolves to %s" % (
+                        json.dumps(fr.get("value")), fr.get("path"), "nothing" if node is KeyError else json.dumps(node)[:80]), {"kind": "keycapture", "rules": ktext, "data": json.dumps(kdoc)})
     n = 30 if ctx.quick else 3000
     for t in range(n):
         doc = gen.gen_doc(rng, scalars=SCALARS, depth=5)
@@ -403,6 +444,23 @@ def shard(ctx):
 
 def replay(case, w):
     found = []
+    if case.get("kind") == "keycapture":
+        r = w.run({"k": "cli", "argv": ["validate", "-r", "{S}/r.guard", "-d", "{S}/d.json", "--structured", "-S", "none", "-o", "json"],
+                   "files": {"r.guard": case["rules"], "d.json": case["data"]}})
+        if r.get("r") != "ok":
+            return False, "evaluation failed"
+        doc = json.loads(case["data"])
+        bad = []
+        for m_ in re.finditer(r'"from":\s*\{\s*"path":\s*"([^"]*)",\s*"value":\s*("[^"]*")', r["out"]):
+            node = doc
+            try:
+                for seg in [x for x in m_.group(1).split("/") if x != ""]:
+                    node = node[int(seg)] if isinstance(node, list) else node[seg]
+            except (KeyError, IndexError, ValueError, TypeError):
+                node = None
+            if node != json.loads(m_.group(2)):
+                bad.append((m_.group(1), m_.group(2)))
+        return not bad, "captured keys whose path does not lead to them: %s" % bad
     if case.get("kind") == "console":
         r = w.run({"k": "cli", "argv": ["validate", "-r", "{S}/r.guard", "-d", "{S}/t.json"], "files": {"r.guard": case["rules"], "t.json": case["text"]}})
         doc = json.loads(case["text"])
